@@ -236,11 +236,11 @@ def rule_d(ctx):
         ctx.check(okc, "C07-D", "Ol:marker-shows-counter", oip[0][1]["span"], fn_key(post), "marker number is %s" % norm(post.expr(oip[0][1]["args"][1])))
     if ctx.check(len(sets) == 1, "C07-D", "Ol:one-counter-update", post.span, fn_key(post), "%d Cell::set" % len(sets)):
         sbb, st = sets[0]
-        ex = norm(post.expr(st["args"][1]))
+        ex = norm(post.canon(st["args"][1]))
         d = direct_call(post, st["args"][1])
         import re as _re
         # the new value is (counter.get() + 1), possibly wrapped by an overflow policy (unwrap_or(.., MAX) after checked_add)
-        okc = bool(_re.search(r"\((<T>|Cell::<T>|std::cell::Cell::<T>)::get\([^()]*\) \+ 1_i64\)", ex)) and " - " not in ex and \
+        okc = bool(_re.search(r"\((<T>|Cell::<T>|std::cell::Cell::<T>)::get\(.*\) \+ 1_i64\)", ex)) and " - " not in ex and \
             ex.count("::get(") == 1 and not _re.search(r"[*/]", ex.replace("::<", "").replace("i64::MAX", ""))
         ctx.check(okc, "C07-D", "Ol:counter+=1", st["span"], fn_key(post), "counter update is %s" % ex)
         errs = drops.error_blocks(post)
@@ -250,12 +250,16 @@ def rule_d(ctx):
         ctx.check(not inloop, "C07-D", "Ol:one-step-per-item", st["span"], fn_key(post), "")
     # start attribute default 1
     pdn = F.one("process_dom_node")
-    uo = [(bb, t) for bb, t in pdn.calls(lambda cd, t: callee_method(t) == "unwrap_or")
-          if has_call(pdn.atoms(t["args"][0]), "str>::parse", "<impl str>::parse") and (op_const(t["args"][1]) or {}).get("ty") == "i64"]
+    pbodies = [pdn] + [cb for _bb, cb in transitive_closures(F, pdn)]
+    uo = []
+    for pb in pbodies:
+        uo += [(pb, t) for bb, t in pb.calls(lambda cd, t: callee_method(t) == "unwrap_or")
+               if has_call(pb.atoms(t["args"][0]), "str>::parse", "<impl str>::parse") and (op_const(t["args"][1]) or {}).get("ty") == "i64"]
     okc = len(uo) == 1 and (op_const(uo[0][1]["args"][1]) or {}).get("int") == 1
     ctx.check(okc, "C07-D", "ol-start:parse-or-1", uo[0][1]["span"] if uo else pdn.span, pdn.id, "")
     init = []
-    # the start number: the i64 captured by the closure that builds the Ol node
+    # the start number: the i64 captured by the closure that builds the Ol node; its defaults — a constant
+    # initialiser, or the fallback argument of map_or / unwrap_or — must all be 1
     for (cbb, i, cb, ops, fields) in closure_bodies_created_in(F, pdn):
         builds_ol = any((st.get("rv") or {}).get("variant") == "Ol" for x in cb.reachable() for st in cb.stmts(x))
         if not builds_ol:
@@ -268,6 +272,12 @@ def rule_d(ctx):
                         k = op_const(r[3]["rv"]["use"])
                         if k:
                             init.append(k.get("int"))
+                    elif r[0] == "call" and callee_method(r[2]) in ("map_or", "unwrap_or", "map_or_else"):
+                        for a in r[2]["args"][1:]:
+                            k = op_const(a)
+                            if k and k.get("ty") == "i64":
+                                init.append(k.get("int"))
+    init = sorted(set(init))
     ctx.check(init == [1], "C07-D", "ol-start:default-1", pdn.span, pdn.id, "constant initialisers of start: %s" % init)
     # estimate and renderer compute the marker width from (start, start + n − 1)
     cops = F.one("calc_ol_prefix_size")
